@@ -16,6 +16,21 @@
 //!     sign_sorted_rrset_in calls sharing ONE scratch buffer, and
 //!     sign_sorted_zone_records with every key list to length 3 (two
 //!     algorithms, repeated keys) over zones of one or two RRsets;
+//!   * faults at the signing primitive and dirty caller state (P8): the keys
+//!     are `SigningKey<_, Faulty>` where `Faulty` implements the public
+//!     `SignRaw` trait around a real ring key pair and returns the trait's
+//!     error at a chosen call. Every call sequence to length 3 (thorough 4)
+//!     of sign_sorted_rrset_in over {two keys} x {two RRsets} on ONE scratch
+//!     Vec, each call with sign_raw succeeding or failing (all 2^n patterns)
+//!     or refused for a reversed validity period, x what the caller left in
+//!     the scratch Vec (nothing / one octet / unrelated octets / a complete
+//!     signed-data image, on entry or before every call); every sequence to
+//!     length 2 (thorough 3) over five entry points (sign_sorted_rrset_in,
+//!     sign_rrset, Rrset::sign, sign_sorted_zone_records, in-place
+//!     sign_zone) with the failure at every sign_raw position of a call, on
+//!     state the caller keeps (scratch, key objects, Rrset / SortedRecords
+//!     objects, a zone collection that in-place signing grows); every failed
+//!     call is retried once on the same state at the end of the history;
 //!   * key representations: BIND private-key text round trip and variants,
 //!     KeyPair::from_bytes per algorithm (and every foreign / bit-flipped
 //!     public key, which must be refused), sign_raw, generate();
@@ -42,19 +57,27 @@
 //!     owner | RDATA composed by hand;
 //!   * each bit flip is classified by the independent construction:
 //!     different signed octets / signature / key => verification must fail,
-//!     identical signed octets => verification must still succeed.
+//!     identical signed octets => verification must still succeed;
+//!   * P8: a call whose sign_raw failed returns Err and leaves no RRSIG (and
+//!     an unchanged zone collection); every other call returns Ok and each
+//!     of its RRSIGs passes the same field / ring-over-independent-octets /
+//!     signed_data / verify_signed_data checks, whatever happened earlier on
+//!     the same scratch / key / record objects.
 use bytes::Bytes;
 use domain::base::cmp::CanonicalOrd;
 use domain::base::iana::{DigestAlgorithm, Rtype, SecurityAlgorithm};
 use domain::base::name::{FlattenInto, Name, ParsedName, ToName};
 use domain::base::rdata::ComposeRecordData;
 use domain::base::{Message, Record, RecordData, Ttl};
-use domain::crypto::sign::{KeyPair, SecretKeyBytes};
+use domain::crypto::sign::{KeyPair, SecretKeyBytes, SignError, SignRaw, Signature};
+use domain::dnssec::sign::denial::config::DenialConfig;
 use domain::dnssec::sign::keys::signingkey::SigningKey;
-use domain::dnssec::sign::records::{RecordsIter, Rrset, SortedRecords};
+use domain::dnssec::sign::records::{DefaultSorter, RecordsIter, Rrset, SortedRecords};
 use domain::dnssec::sign::signatures::rrsigs::{
     sign_rrset, sign_sorted_rrset_in, sign_sorted_zone_records, GenerateRrsigConfig,
 };
+use domain::dnssec::sign::traits::{Signable, SignableZoneInPlace};
+use domain::dnssec::sign::SigningConfig;
 use domain::dnssec::validator::base::{DnskeyExt, RrsigExt};
 use domain::rdata::dnssec::Timestamp;
 use domain::rdata::{AllRecordData, Dnskey, Rrsig, ZoneRecordData};
@@ -62,6 +85,7 @@ use mc::*;
 use octseq::OctetsFrom;
 use rayon::prelude::*;
 use serde_json::{json, Value};
+use std::cell::{Cell, RefCell};
 use std::collections::BTreeMap;
 use std::sync::Arc;
 
@@ -449,6 +473,10 @@ fn octets_class(component: &str, ctxname: &str, spec: &TypeSpec, d: &str) -> Str
     } else if d == "other" && component == "signer" && ctxname.contains('#') {
         // multi-step histories: the position in the history is the structure
         format!("{base}|{ctxname}|other")
+    } else if component == "signer" && ctxname.starts_with("fault-history") && (d == "other" || d.starts_with("sign_raw-was-handed")) {
+        // histories with injected sign_raw failures / caller-dirtied scratch:
+        // entry point and what happened before the call are the structure
+        format!("{base}|{ctxname}|{d}")
     } else if d == "other" && component == "signed_data" {
         format!("{base}|other|after={ctxname}")
     } else {
@@ -1500,7 +1528,7 @@ fn sign_case(env: &Env, c: &Case, l: &mut Local) -> Option<Signed> {
     if spec.rtype == 46 {
         l.c("signer:rrsig-rrset-signed");
     }
-    let x = Expect { en, spec, key, si: c.si, inc, exp, ttl: c.ttl, class: c.class, hash: c.hash() };
+    let x = Expect { en, spec, key, si: c.si, inc, exp, ttl: c.ttl, class: c.class, hash: c.hash(), seen: None };
     let cj = c.json(env);
     judge_rrsig(env, &x, rrs, &rec, &cj, l)
 }
@@ -1517,6 +1545,10 @@ struct Expect<'a> {
     ttl: u32,
     class: u16,
     hash: u64,
+    /// P8: the octets the signing primitive was handed during the call that
+    /// made the RRSIG (observed at the SignRaw interface); only used to say
+    /// HOW the signed data deviates once the signature failed to verify
+    seen: Option<&'a [Vec<u8>]>,
 }
 
 /// Check one RRSIG record made by the signer for the published RRset `rrs`:
@@ -1583,7 +1615,20 @@ fn judge_rrsig(env: &Env, x: &Expect, rrs: Vec<RawRR>, rec: &Record<LName, LSig>
     }
     let good: Vec<Vec<u8>> = refs.iter().filter(|r| ring_verify(key.alg, &key.pubkey, r, &sig.sig)).cloned().collect();
     if good.is_empty() {
-        let d = diagnose(&sig, &rrs, false, &|o| ring_verify(key.alg, &key.pubkey, o, &sig.sig));
+        let mut d = diagnose(&sig, &rrs, false, &|o| ring_verify(key.alg, &key.pubkey, o, &sig.sig));
+        if let (true, Some(seen)) = (d == "other", x.seen) {
+            // which of the octet strings handed to sign_raw was signed, and
+            // how does it relate to the reference octets?
+            if let Some(sd) = seen.iter().find(|sd| ring_verify(key.alg, &key.pubkey, sd, &sig.sig)) {
+                d = if sd.len() > refs[0].len() && sd.ends_with(&refs[0]) {
+                    "sign_raw-was-handed-left-over-octets-before-the-signed-data".into()
+                } else if sd.len() > refs[0].len() && sd.starts_with(&refs[0]) {
+                    "sign_raw-was-handed-extra-octets-after-the-signed-data".into()
+                } else {
+                    "sign_raw-was-handed-other-octets".into()
+                };
+            }
+        }
         let class = octets_class("signer", en, spec, &d);
         env.ctx.violation(
             &class,
@@ -1784,10 +1829,14 @@ fn lib_validate(rrs: &[RawRR], sig: &SigF, form: Form, dnskey: &Dnskey<Bytes>) -
     }
 }
 
-fn check_transforms(env: &Env, spec: &TypeSpec, key: &KeyMat, cj: &Value, s: &Signed, full: bool, l: &mut Local) {
+/// `level`: 2 = the whole transformation menu; 1 = the reduced menu of the
+/// multi-step histories; 0 = the records as signed only (P8)
+fn check_transforms(env: &Env, spec: &TypeSpec, key: &KeyMat, cj: &Value, s: &Signed, level: u8, l: &mut Local) {
     for (label, rrs_t, sig_t, form) in transforms(s) {
-        // the multi-step histories use a reduced transformation menu
-        if !full && !matches!(label.as_str(), "identity" | "identity-vec-octets" | "compressed-reversed" | "combined") {
+        if level == 1 && !matches!(label.as_str(), "identity" | "identity-vec-octets" | "compressed-reversed" | "combined") {
+            continue;
+        }
+        if level == 0 && label != "identity" {
             continue;
         }
         l.evals += 1;
@@ -1928,10 +1977,10 @@ fn multi_case(env: &Env, m: &Multi, l: &mut Local) {
     };
     let judge = |en: &str, sp: &TypeSpec, ki: usize, rrs: Vec<RawRR>, rec: &Record<LName, LSig>, tag: String, l: &mut Local| {
         l.evals += 1;
-        let x = Expect { en, spec: sp, key: &env.keys[ki], si: c.si, inc, exp, ttl: c.ttl, class: c.class, hash: fnv(format!("{m:?}|{tag}").as_bytes()) };
+        let x = Expect { en, spec: sp, key: &env.keys[ki], si: c.si, inc, exp, ttl: c.ttl, class: c.class, hash: fnv(format!("{m:?}|{tag}").as_bytes()), seen: None };
         if let Some(s) = judge_rrsig(env, &x, rrs, rec, &cj, l) {
             l.c(&format!("multi:verified:{en}"));
-            check_transforms(env, sp, &env.keys[ki], &cj, &s, false, l);
+            check_transforms(env, sp, &env.keys[ki], &cj, &s, 1, l);
         }
     };
     if m.mode == 4 {
@@ -2066,6 +2115,518 @@ fn run_multi(env: &Env, cases: &[Multi]) -> Local {
             l
         })
         .reduce(Local::default, Local::merge)
+}
+
+// ===================================================================
+// P8: faults at the signing primitive and dirty caller state
+// ===================================================================
+
+/// Shared by the fault-injecting keys of ONE history (one thread).
+#[derive(Default)]
+struct FaultPlan {
+    /// Some(j): the j-th sign_raw call from now (over all keys of the
+    /// history) returns the trait's error; the plan then disarms
+    countdown: Cell<Option<usize>>,
+    fired: Cell<bool>,
+    /// (octets handed to sign_raw, call let through) since the last `arm`
+    seen: RefCell<Vec<(Vec<u8>, bool)>>,
+}
+
+impl FaultPlan {
+    fn arm(&self, at: Option<usize>) {
+        self.countdown.set(at);
+        self.fired.set(false);
+        self.seen.borrow_mut().clear();
+    }
+}
+
+/// A `SignRaw` implementation (what an HSM / remote signer back end is to the
+/// library) around a real ring key pair that fails on demand.
+struct Faulty<'a> {
+    inner: &'a KeyPair,
+    plan: &'a FaultPlan,
+}
+
+impl std::fmt::Debug for Faulty<'_> {
+    fn fmt(&self, f: &mut std::fmt::Formatter<'_>) -> std::fmt::Result {
+        write!(f, "Faulty({:?})", self.inner.algorithm())
+    }
+}
+
+impl SignRaw for Faulty<'_> {
+    fn algorithm(&self) -> SecurityAlgorithm {
+        self.inner.algorithm()
+    }
+    fn dnskey(&self) -> Dnskey<Vec<u8>> {
+        self.inner.dnskey()
+    }
+    fn sign_raw(&self, data: &[u8]) -> Result<Signature, SignError> {
+        let fail = match self.plan.countdown.get() {
+            Some(0) => {
+                self.plan.countdown.set(None);
+                self.plan.fired.set(true);
+                true
+            }
+            Some(n) => {
+                self.plan.countdown.set(Some(n - 1));
+                false
+            }
+            None => false,
+        };
+        self.plan.seen.borrow_mut().push((data.to_vec(), !fail));
+        if fail {
+            Err(SignError)
+        } else {
+            self.inner.sign_raw(data)
+        }
+    }
+}
+
+type FKey<'a> = SigningKey<Bytes, Faulty<'a>>;
+
+/// One call of a history.
+#[derive(Clone, Debug, PartialEq)]
+struct FStep {
+    /// 'I' sign_sorted_rrset_in with the history's ONE scratch Vec;
+    /// 'R' sign_rrset; 'G' Signable::sign of an Rrset;
+    /// 'Z' sign_sorted_zone_records over the history's zone collection;
+    /// 'P' SortedRecords::sign_zone (in place, denial already present) on it
+    entry: char,
+    /// I/R/G: sign the OTHER RRset `o.z TXT` instead of the case's
+    other: bool,
+    /// positions (0/1) in the history's key pair; I/R use the first only
+    keys: Vec<usize>,
+    /// the sign_raw call (counted within this API call) that fails
+    fail: Option<usize>,
+    /// I/R: the call is made with expiration < inception, which the library
+    /// may refuse before it gets to sign (the other way for a call to fail)
+    reversed: bool,
+}
+
+#[derive(Clone, Debug)]
+struct FHist {
+    /// type, sequence, owner, TTL, period, signer name, class (ki/entry unused)
+    base: Case,
+    /// the two keys of the history (indexes into env.keys)
+    pair: [usize; 2],
+    /// what the caller's scratch buffer holds:
+    /// 0 Vec::new(); 1 Vec::with_capacity(4096); on entry 2 one zero octet,
+    /// 3 forty unrelated octets, 4 a complete signed-data image of another
+    /// RRset; 5 the caller appends the unrelated octets before EVERY call;
+    /// 6 the caller overwrites it with the image before every call
+    dirt: u8,
+    steps: Vec<FStep>,
+}
+
+impl FHist {
+    fn json(&self, env: &Env) -> Value {
+        json!({"part": "faulthist", "case": self.base.json(env), "pair": [env.keys[self.pair[0]].alg, env.keys[self.pair[1]].alg], "dirt": self.dirt,
+               "steps": self.steps.iter().map(|s| json!([s.entry.to_string(), s.other, s.keys, s.fail, s.reversed])).collect::<Vec<_>>()})
+    }
+    fn from_json(env: &Env, base: Case, v: &Value) -> FHist {
+        let ki = |a: &Value| env.keys.iter().position(|k| Some(k.alg as u64) == a.as_u64()).expect("algorithm in this tier's menu");
+        FHist {
+            base,
+            pair: [ki(&v["pair"][0]), ki(&v["pair"][1])],
+            dirt: v["dirt"].as_u64().unwrap_or(0) as u8,
+            steps: v["steps"]
+                .as_array()
+                .expect("steps")
+                .iter()
+                .map(|s| FStep {
+                    entry: s[0].as_str().and_then(|x| x.chars().next()).expect("entry"),
+                    other: s[1].as_bool().unwrap_or(false),
+                    keys: s[2].as_array().map(|a| a.iter().map(|x| x.as_u64().unwrap() as usize).collect()).unwrap_or_default(),
+                    fail: s[3].as_u64().map(|x| x as usize),
+                    reversed: s[4].as_bool().unwrap_or(false),
+                })
+                .collect(),
+        }
+    }
+}
+
+fn fh_entry_name(e: char) -> &'static str {
+    match e {
+        'I' => "sign_sorted_rrset_in",
+        'R' => "sign_rrset",
+        'G' => "Rrset::sign",
+        'Z' => "sign_sorted_zone_records",
+        _ => "sign_zone-in-place",
+    }
+}
+
+/// The RRSIG records of a collection, as RRSIG records.
+fn rrsigs_of(sorted: &SortedRecords<LName, ZData>) -> Vec<Record<LName, LSig>> {
+    sorted
+        .iter()
+        .filter_map(|r| match r.data() {
+            ZoneRecordData::Rrsig(s) => Some(Record::new(r.owner().clone(), r.class(), r.ttl(), s.clone())),
+            _ => None,
+        })
+        .collect()
+}
+
+fn rrsig_key(r: &Record<LName, LSig>) -> (Vec<Vec<u8>>, SigF) {
+    (name_labels(r.owner()), sigf_of(r.data()))
+}
+
+/// One history: a sequence of signing calls on state that the caller keeps
+/// between the calls (ONE scratch Vec, the key objects, the Rrset /
+/// SortedRecords objects, one zone collection that in-place signing grows),
+/// with an injected sign_raw failure per call or not, followed by one retry
+/// of every failed call on the same state.
+///
+/// Oracle: a call in which sign_raw failed returns Err and leaves no RRSIG
+/// behind (a call with a reversed validity period may be refused likewise);
+/// every other call returns Ok and each of its RRSIGs
+/// passes judge_rrsig (fields; ring directly over the independent RFC 4034
+/// §3.1.8.1 octets) and the library's own signed_data / verify_signed_data,
+/// whatever happened earlier in the history and whatever the caller left in
+/// the scratch buffer.
+fn fault_hist_case(env: &Env, h: &FHist, l: &mut Local) {
+    let c = &h.base;
+    let spec = &env.types[c.ti];
+    let ospec = env.types.iter().find(|t| t.rtype == 16).expect("TXT in the menu");
+    let (inc, exp, _) = env.times[c.tm];
+    let (rinc, rexp, _) = *env.times.iter().find(|t| t.2 == Period::Reversed).expect("a reversed period in the menu");
+    let main = c.rrs(env);
+    let other = vec![RawRR { owner: labels("o.z"), rtype: 16, class: c.class, ttl: c.ttl, fields: ospec.values[0].clone() }];
+    let cj = h.json(env);
+    l.evals += 1;
+    let (zm, zo) = match guard(|| (lib_zrecs(&build_msg(&main, false).bytes), lib_zrecs(&build_msg(&other, false).bytes))) {
+        Ok((Ok(a), Ok(b))) => (a, b),
+        _ => {
+            env.ctx.violation(&format!("C12|input|type={}|library-cannot-read-generated-record", spec.mn), "fault history: generated records unreadable", cj);
+            return;
+        }
+    };
+    let (i, e) = (Timestamp::from(inc), Timestamp::from(exp));
+    let apex = lname(&labels("z"));
+    let to_rrs = |sp: &TypeSpec, p: &Pubd, owner: &[Vec<u8>]| -> Vec<RawRR> {
+        p.iter()
+            .filter(|(o, t, ..)| *t == sp.rtype && lower_labels(o) == lower_labels(owner))
+            .map(|(o, t, class, ttl, rd)| RawRR { owner: o.clone(), rtype: *t, class: *class, ttl: *ttl, fields: split_rdata(&sp.layout, rd).expect("library RDATA follows the layout") })
+            .collect()
+    };
+    // ---- the state that lives through the history
+    let plan = FaultPlan::default();
+    let fkeys: Vec<FKey> = h
+        .pair
+        .iter()
+        .map(|&ki| {
+            let sk = &env.keys[ki].signers[c.si];
+            SigningKey::new(sk.owner().clone(), sk.flags(), Faulty { inner: sk.raw_secret_key(), plan: &plan })
+        })
+        .collect();
+    let setup = guard(|| {
+        let sm: SortedRecords<LName, ZData> = SortedRecords::from(zm.clone());
+        let so: SortedRecords<LName, ZData> = SortedRecords::from(zo.clone());
+        let mut all = zm.clone();
+        all.extend(zo.clone());
+        let zone: SortedRecords<LName, ZData> = SortedRecords::from(all);
+        (sm, so, zone)
+    });
+    let Ok((sm, so, mut zone)) = setup else {
+        env.ctx.violation("C12|fault-history|setup|panic", "SortedRecords::from panicked", cj);
+        return;
+    };
+    let setm: Vec<_> = sm.rrsets().collect();
+    let seto: Vec<_> = so.rrsets().collect();
+    let (unsm, unso) = (Rrset::new_from_owned(&zm), Rrset::new_from_owned(&zo));
+    let (Ok(unsm), Ok(unso), 1, 1) = (unsm, unso, setm.len(), seto.len()) else {
+        env.ctx.violation("C12|fault-history|setup", "SortedRecords split one RRset / Rrset::new_from_owned refused it", cj);
+        return;
+    };
+    let (pm, po) = (published_of(&sm), published_of(&so));
+    let junk: Vec<u8> = (0..40u8).map(|k| 0xA5 ^ k.wrapping_mul(7)).collect();
+    let image: Vec<u8> = {
+        let k0 = &env.keys[h.pair[0]];
+        let f = SigF { tc: 16, alg: k0.alg, labels: 2, ottl: c.ttl, exp, inc, tag: keytag_app_b(&k0.rdata), signer: labels("z"), sig: vec![] };
+        ref_octets(&f, &other, false).expect("labels fit")
+    };
+    let mut scratch: Vec<u8> = match h.dirt {
+        0 => Vec::new(),
+        1 => Vec::with_capacity(4096),
+        2 => vec![0],
+        3 | 5 => junk.clone(),
+        _ => image.clone(),
+    };
+    let cfg = GenerateRrsigConfig::new(i, e);
+    let scfg: SigningConfig<Bytes, DefaultSorter> = SigningConfig::new(DenialConfig::AlreadyPresent, i, e);
+    // ---- the calls: the history, then one retry per failed call
+    let mut queue: Vec<(FStep, bool)> = h.steps.iter().cloned().map(|s| (s, false)).collect();
+    let mut qi = 0;
+    let mut failed_before = false;
+    let mut lib_used_scratch = false;
+    while qi < queue.len() {
+        let (st, retry) = queue[qi].clone();
+        let pos = qi;
+        qi += 1;
+        if pos > 0 {
+            match h.dirt {
+                5 => scratch.extend_from_slice(&junk),
+                6 => {
+                    scratch.clear();
+                    scratch.extend_from_slice(&image);
+                }
+                _ => {}
+            }
+        }
+        let caller_dirty = st.entry == 'I' && (h.dirt >= 5 || (h.dirt >= 2 && !lib_used_scratch));
+        let state = if retry {
+            "retry-of-failed-call"
+        } else if caller_dirty {
+            "caller-left-octets-in-scratch"
+        } else if failed_before {
+            "after-failed-call"
+        } else if pos == 0 {
+            "first-call"
+        } else {
+            "after-ok-calls"
+        };
+        let ename = fh_entry_name(st.entry);
+        let en = format!("fault-history|{ename}|{state}");
+        let keys: Vec<&FKey> = st.keys.iter().map(|&k| &fkeys[k]).collect();
+        let zone_before = published_of(&zone);
+        let sigs_before: Vec<(Vec<Vec<u8>>, SigF)> = if st.entry == 'P' { rrsigs_of(&zone).iter().map(rrsig_key).collect() } else { Vec::new() };
+        plan.arm(st.fail);
+        l.evals += 1;
+        let (sinc, sexp) = if st.reversed { (rinc, rexp) } else { (inc, exp) };
+        let res = guard(|| -> Result<Vec<Record<LName, LSig>>, String> {
+            let dbg = |e| format!("{e:?}");
+            let (i, e) = if st.reversed { (Timestamp::from(rinc), Timestamp::from(rexp)) } else { (i, e) };
+            match st.entry {
+                'I' => sign_sorted_rrset_in(keys[0], if st.other { &seto[0] } else { &setm[0] }, i, e, &mut scratch).map(|r| vec![r]).map_err(dbg),
+                'R' => sign_rrset(keys[0], if st.other { &unso } else { &unsm }, i, e).map(|r| vec![r]).map_err(dbg),
+                'G' => (if st.other { &seto[0] } else { &setm[0] }).sign(&apex, &keys, i, e).map_err(dbg),
+                'Z' => sign_sorted_zone_records(&apex, zone.owner_rrs(), &keys, &cfg).map_err(dbg),
+                _ => zone.sign_zone(&apex, &scfg, &keys).map(|_| Vec::new()).map_err(dbg),
+            }
+        });
+        if st.entry == 'I' {
+            lib_used_scratch = true;
+        }
+        let fired = plan.fired.get();
+        let seen: Vec<Vec<u8>> = plan.seen.borrow().iter().filter(|s| s.1).map(|s| s.0.clone()).collect();
+        if st.fail.is_some() && !fired {
+            l.c("fh:fault-position-beyond-the-sign_raw-calls-of-the-call");
+        }
+        let zone_after = published_of(&zone);
+        let sigs = match res {
+            Err(p) => {
+                env.ctx.violation(&format!("C12|{en}|panic|{}", panic_class(&p)), &format!("call {pos}: signer panicked: {p}"), cj.clone());
+                failed_before |= fired;
+                continue;
+            }
+            Ok(Err(err)) => {
+                let kind = err.split('(').next().unwrap_or("").to_string();
+                if st.reversed && !fired && kind == "InvalidSignatureValidityPeriod" {
+                    l.c(&format!("fh:refused-call(reversed period):{ename}"));
+                    failed_before = true;
+                    if !retry {
+                        queue.push((FStep { reversed: false, ..st.clone() }, true));
+                    }
+                } else if fired {
+                    l.c(&format!("fh:failed-call-returned-Err:{ename}"));
+                    // which error it is reported as is not part of the property
+                    l.c(&format!("fh:sign_raw-failure-reported-as:{kind}"));
+                    if zone_after != zone_before {
+                        env.ctx.violation(
+                            &format!("C12|fault-history|{ename}|failed-call-changed-the-zone-collection"),
+                            &format!("call {pos} failed (Err) and the zone collection went from {} to {} records", zone_before.len(), zone_after.len()),
+                            cj.clone(),
+                        );
+                    }
+                    failed_before = true;
+                    if !retry {
+                        queue.push((FStep { fail: None, ..st.clone() }, true));
+                    }
+                } else {
+                    env.ctx.violation(
+                        &format!("C12|{en}|sign-error|{kind}"),
+                        &format!("call {pos}: signer returned {err} although every sign_raw call of this call succeeded ({} made)", seen.len()),
+                        cj.clone(),
+                    );
+                }
+                continue;
+            }
+            Ok(Ok(v)) => v,
+        };
+        if fired {
+            env.ctx.violation(
+                &format!("C12|fault-history|{ename}|sign_raw-failed-but-the-call-returned-Ok"),
+                &format!("call {pos}: a sign_raw call returned its error and the call returned Ok with {} RRSIG(s)", sigs.len()),
+                cj.clone(),
+            );
+            failed_before = true;
+            continue;
+        }
+        l.c(&format!("fh:ok-call:{ename}|{state}"));
+        if st.reversed {
+            l.c("fh:reversed-period-signed");
+        }
+        let judge = |sp: &TypeSpec, k: usize, rrs: Vec<RawRR>, rec: &Record<LName, LSig>, tag: String, l: &mut Local| {
+            l.evals += 1;
+            let ki = h.pair[k];
+            let x = Expect { en: &en, spec: sp, key: &env.keys[ki], si: c.si, inc: sinc, exp: sexp, ttl: c.ttl, class: c.class, hash: fnv(format!("{h:?}|{pos}|{tag}").as_bytes()), seen: Some(&seen) };
+            if let Some(s) = judge_rrsig(env, &x, rrs, rec, &cj, l) {
+                l.c(&format!("fh:verified:{ename}|{state}"));
+                check_transforms(env, sp, &env.keys[ki], &cj, &s, 0, l);
+            }
+        };
+        match st.entry {
+            'I' | 'R' => {
+                // exactly one RRSIG, for the RRset and key of the call
+                let (sp, rrs) = match (st.other, st.entry) {
+                    (false, 'I') => (spec, to_rrs(spec, &pm, &main[0].owner)),
+                    (true, 'I') => (ospec, to_rrs(ospec, &po, &other[0].owner)),
+                    (false, _) => (spec, main.clone()),
+                    (true, _) => (ospec, other.clone()),
+                };
+                judge(sp, st.keys[0], rrs, &sigs[0], "0".into(), l);
+            }
+            _ => {
+                // in-place signing: the RRSIGs are in the collection; the
+                // other records must be what they were
+                let in_place = st.entry == 'P';
+                let (all, fresh): (Vec<Record<LName, LSig>>, Vec<bool>) = if in_place {
+                    let non_sig = |p: &Pubd| p.iter().filter(|r| r.1 != 46).cloned().collect::<Vec<_>>();
+                    if non_sig(&zone_after) != non_sig(&zone_before) {
+                        env.ctx.violation("C12|fault-history|sign_zone-in-place|records-other-than-RRSIG-changed", &format!("call {pos}: in-place signing with the denial records declared present changed the zone's own records"), cj.clone());
+                    }
+                    let all = rrsigs_of(&zone);
+                    let now: Vec<_> = all.iter().map(rrsig_key).collect();
+                    if sigs_before.iter().any(|b| !now.contains(b)) {
+                        env.ctx.violation("C12|fault-history|sign_zone-in-place|earlier-RRSIG-lost", &format!("call {pos}: an RRSIG that was in the collection before the call is gone"), cj.clone());
+                    }
+                    let fresh = now.iter().map(|k| !sigs_before.contains(k)).collect();
+                    (all, fresh)
+                } else {
+                    let n = sigs.len();
+                    (sigs, vec![true; n])
+                };
+                let zp = if st.entry == 'G' { if st.other { &po } else { &pm } } else { &zone_after };
+                let mut groups: Vec<(&TypeSpec, Vec<RawRR>)> = Vec::new();
+                if st.entry != 'G' || !st.other {
+                    groups.push((spec, to_rrs(spec, zp, &main[0].owner)));
+                }
+                if st.entry != 'G' || st.other {
+                    groups.push((ospec, to_rrs(ospec, zp, &other[0].owner)));
+                }
+                let mut claimed = vec![false; all.len()];
+                for (gi, (sp, rrs)) in groups.into_iter().enumerate() {
+                    let mine: Vec<usize> = (0..all.len())
+                        .filter(|&k| all[k].data().type_covered().to_int() == sp.rtype && lower_labels(&name_labels(all[k].owner())) == lower_labels(&rrs[0].owner))
+                        .collect();
+                    if mine.is_empty() {
+                        l.c("fh:zone-walk-skipped-rrset");
+                        continue;
+                    }
+                    let mut used = vec![false; st.keys.len()];
+                    for k in mine {
+                        claimed[k] = true;
+                        let alg = all[k].data().algorithm().to_int();
+                        // in place: earlier calls' RRSIGs stay (and an equal
+                        // one is not added twice), so a key may have several
+                        match (0..st.keys.len()).find(|&j| (in_place || !used[j]) && env.keys[h.pair[st.keys[j]]].alg == alg) {
+                            None if !fresh[k] => {}
+                            None => {
+                                env.ctx.violation(
+                                    &format!("C12|fault-history|{ename}|RRSIG-for-no-given-key"),
+                                    &format!("call {pos}: an RRSIG with algorithm {alg} for {} was made that matches none of the (remaining) signing keys", sp.mn),
+                                    cj.clone(),
+                                );
+                            }
+                            Some(j) => {
+                                used[j] = true;
+                                if fresh[k] {
+                                    judge(sp, st.keys[j], rrs.clone(), &all[k], format!("{gi}|{k}"), l);
+                                } else {
+                                    l.c("fh:in-place:RRSIG-of-an-earlier-call-kept(judged-then)");
+                                }
+                            }
+                        }
+                    }
+                    if used.iter().any(|u| !u) {
+                        env.ctx.violation(
+                            &format!("C12|fault-history|{ename}|no-RRSIG-for-a-given-key"),
+                            &format!("call {pos}: {} keys were given but only {} have an RRSIG covering {} at {}", st.keys.len(), used.iter().filter(|u| **u).count(), sp.mn, name_text(&rrs[0].owner)),
+                            cj.clone(),
+                        );
+                    }
+                }
+                if claimed.iter().any(|c| !c) {
+                    env.ctx.violation(&format!("C12|fault-history|{ename}|RRSIG-for-no-RRset-of-the-zone"), &format!("call {pos}: an RRSIG was made that covers none of the RRsets handed in"), cj.clone());
+                }
+            }
+        }
+    }
+    env.stats.sample(4, || cj.clone());
+}
+
+fn run_fault_hists(env: &Env, cases: &[FHist]) -> Local {
+    cases
+        .par_iter()
+        .with_max_len(8)
+        .fold(Local::default, |mut l, c| {
+            fault_hist_case(env, c, &mut l);
+            l
+        })
+        .reduce(Local::default, Local::merge)
+}
+
+/// All strings over `alpha` with a length in `lens`, shortest first.
+fn strings<T: Clone>(alpha: &[T], lens: std::ops::RangeInclusive<usize>) -> Vec<Vec<T>> {
+    let mut out = Vec::new();
+    let mut buf = Vec::new();
+    for n in lens {
+        for i in 0..pow(alpha.len(), n) {
+            nth_string(alpha, n, i, &mut buf);
+            out.push(buf.clone());
+        }
+    }
+    out
+}
+
+/// P8 alphabets, simplest symbol first.
+///  A: sign_sorted_rrset_in x {key 1, key 2} x {the RRset, o.z TXT} x
+///     {sign_raw succeeds, fails}, and x {key 1} x {RRset, other} with a
+///     reversed validity period;
+///  B: the five entry points; the single-RRset ones with the first key x
+///     {RRset, other} x {ok, fail} and the RRset with a reversed period; the
+///     key-list ones with {[k1], [k1,k2]} x
+///     {no failure, failure at each of the sign_raw calls a two-RRset zone
+///     needs}.
+fn fh_alphabets() -> (Vec<FStep>, Vec<FStep>) {
+    let mut a = Vec::new();
+    for k in [0usize, 1] {
+        for other in [false, true] {
+            for fail in [None, Some(0)] {
+                a.push(FStep { entry: 'I', other, keys: vec![k], fail, reversed: false });
+            }
+        }
+    }
+    for other in [false, true] {
+        a.push(FStep { entry: 'I', other, keys: vec![0], fail: None, reversed: true });
+    }
+    let mut b = Vec::new();
+    for entry in ['I', 'R'] {
+        for other in [false, true] {
+            for fail in [None, Some(0)] {
+                b.push(FStep { entry, other, keys: vec![0], fail, reversed: false });
+            }
+        }
+        b.push(FStep { entry, other: false, keys: vec![0], fail: None, reversed: true });
+    }
+    for (entry, rrsets) in [('G', 1usize), ('Z', 2), ('P', 2)] {
+        for keys in [vec![0usize], vec![0, 1]] {
+            b.push(FStep { entry, other: false, keys: keys.clone(), fail: None, reversed: false });
+            for f in 0..rrsets * keys.len() {
+                b.push(FStep { entry, other: false, keys: keys.clone(), fail: Some(f), reversed: false });
+            }
+        }
+    }
+    (a, b)
 }
 
 // ===================================================================
@@ -2401,10 +2962,10 @@ fn key_form_checks(env: &Env, form_keys: &[KeyMat], all_keys: &[KeyMat], l: &mut
             match res {
                 Ok(Ok(rec)) => {
                     let en = format!("sign_rrset|key-form#{form}");
-                    let x = Expect { en: &en, spec: &env.types[ti], key: pubk, si: 0, inc, exp, ttl: 3600, class: 1, hash: fnv(format!("{cj}").as_bytes()) };
+                    let x = Expect { en: &en, spec: &env.types[ti], key: pubk, si: 0, inc, exp, ttl: 3600, class: 1, hash: fnv(format!("{cj}").as_bytes()), seen: None };
                     if let Some(s) = judge_rrsig(env, &x, rrs, &rec, &cj, l) {
                         l.c(&format!("keyform:{form}:signature-verifies"));
-                        check_transforms(env, &env.types[ti], pubk, &cj, &s, false, l);
+                        check_transforms(env, &env.types[ti], pubk, &cj, &s, 1, l);
                     }
                 }
                 other => viol(format!("C12|key-form|{form}|sign-failed"), format!("alg {}: signing with the {form} key failed: {other:?}", pubk.alg), cj),
@@ -2882,7 +3443,7 @@ fn sign_and_transform(env: &Env, c: &Case, l: &mut Local) {
             println!("signed: {}", s.sig.json());
             println!("reference signed octets: {}", hex(&s.refs[0]));
         }
-        check_transforms(env, &env.types[c.ti], &env.keys[c.ki], &c.json(env), &s, true, l);
+        check_transforms(env, &env.types[c.ti], &env.keys[c.ki], &c.json(env), &s, 2, l);
     }
 }
 
@@ -2895,7 +3456,8 @@ fn main() {
         let case = &v["case"];
         let node = if matches!(case["part"].as_str(), Some("transform") | Some("fault")) { case["case"].clone() } else { case.clone() };
         let is_multi = node["part"] == "multi";
-        let inner = if is_multi { node["case"].clone() } else { node.clone() };
+        let is_fh = node["part"] == "faulthist";
+        let inner = if is_multi || is_fh { node["case"].clone() } else { node.clone() };
         let tier_quick = inner["tier"].as_str().map(|t| t == "quick").unwrap_or(ctx.quick());
         let (mut env, all_keys, form_keys) = build_env(ctx.clone(), tier_quick);
         env.verbose = true;
@@ -2927,6 +3489,10 @@ fn main() {
                     };
                     println!("multi-step history: {}", m.json(&env));
                     multi_case(&env, &m, &mut l);
+                } else if is_fh {
+                    let h = FHist::from_json(&env, c.clone(), &node);
+                    println!("history with injected sign_raw failures / dirty scratch: {}", h.json(&env));
+                    fault_hist_case(&env, &h, &mut l);
                 } else if part == "fault" {
                     fault_case(&env, &c, &mut l);
                 } else {
@@ -3116,6 +3682,49 @@ fn main() {
             }
         }
     }
+    // P8: histories with injected sign_raw failures and a caller-dirtied
+    // scratch buffer (see fault_hist_case)
+    let (alpha_a, alpha_b) = fh_alphabets();
+    let ti_of = |mn: &str| env.types.iter().position(|t| t.mn == mn).expect("type in the menu");
+    let small_types: Vec<usize> = if quick { vec![ti_of("A"), ti_of("MX")] } else { vec![ti_of("A"), ti_of("MX"), ti_of("NSEC")] };
+    let all_types: Vec<usize> = (0..env.types.len()).filter(|&ti| env.types[ti].rtype != 46).collect();
+    let fast_pair = [fast[0], fast[1]];
+    let dirt_all: Vec<u8> = (0..=6).collect();
+    let dirt_some: Vec<u8> = vec![0, 3, 5];
+    let mut p8: Vec<FHist> = Vec::new();
+    let mut p8_bound: Vec<Value> = Vec::new();
+    let mut p8_add = |what: &str, types: &[usize], owners: &[usize], pair: [usize; 2], dirts: &[u8], hs: &[Vec<FStep>]| {
+        let before = p8.len();
+        for &ti in types {
+            for &oi in owners {
+                for &dirt in dirts {
+                    for steps in hs {
+                        p8.push(FHist { base: Case { ti, seq: vec![2, 0], oi, oc: 0, ttl: 3600, tm: 0, si: 0, class: 1, ki: 0, entry: 0, mixed: false }, pair, dirt, steps: steps.clone() });
+                    }
+                }
+            }
+        }
+        p8_bound.push(json!({"histories": what, "call_sequences": hs.len(), "scratch_variants": dirts, "types": types.len(), "owners": owners.iter().map(|&o| OWNERS[o]).collect::<Vec<_>>(),
+            "algorithms": [env.keys[pair[0]].alg, env.keys[pair[1]].alg], "count": p8.len() - before}));
+    };
+    if quick {
+        // quick: the on-entry variants 3, 4 are the first call of 5, 6 followed
+        // by what variant 0 sees; 1 differs from 0 in capacity only
+        p8_add("A: sign_sorted_rrset_in over one scratch Vec, length 1..=3", &small_types, &[0, 3], fast_pair, &[0, 2, 5, 6], &strings(&alpha_a, 1..=3));
+        p8_add("B: five entry points on shared state, length 1..=2", &small_types, &[0], fast_pair, &dirt_some, &strings(&alpha_b, 1..=2));
+    } else {
+        p8_add("A: sign_sorted_rrset_in over one scratch Vec, length 1..=3", &all_types, &[0, 3], fast_pair, &dirt_all, &strings(&alpha_a, 1..=3));
+        p8_add("A: sign_sorted_rrset_in over one scratch Vec, length 4", &small_types, &[0, 3], fast_pair, &dirt_all, &strings(&alpha_a, 4..=4));
+        p8_add("B: five entry points on shared state, length 1..=2", &all_types, &[0, 3], fast_pair, &dirt_some, &strings(&alpha_b, 1..=2));
+        p8_add("B: five entry points on shared state, length 3", &small_types, &[0], fast_pair, &dirt_some, &strings(&alpha_b, 3..=3));
+        // the slow algorithms (RSA, P-384): short histories
+        let slow: Vec<usize> = (0..nkeys).filter(|ki| !fast.contains(ki)).collect();
+        for w in slow.chunks(2) {
+            let pair = [w[0], *w.get(1).unwrap_or(&fast[0])];
+            p8_add("A: sign_sorted_rrset_in over one scratch Vec, length 1..=2", &small_types, &[0, 3], pair, &dirt_all, &strings(&alpha_a, 1..=2));
+            p8_add("B: five entry points on shared state, length 1", &small_types, &[0], pair, &dirt_some, &strings(&alpha_b, 1..=1));
+        }
+    }
     let t0 = std::time::Instant::now();
     let mut total = Local::default();
     key_form_checks(&env, &form_keys, &all_keys, &mut total);
@@ -3135,10 +3744,13 @@ fn main() {
     eprintln!("P5 done: {} histories, {} evaluations, {:.1}s", p5.len(), l5.evals, t0.elapsed().as_secs_f64());
     let l7 = run_all(&env, &p7, sign_and_transform);
     eprintln!("P7 done: {} cases, {} evaluations, {:.1}s", p7.len(), l7.evals, t0.elapsed().as_secs_f64());
-    let (e1, e2, e3, e4, e5, e7) = (l1.evals, l2.evals, l3.evals, l4.evals, l5.evals, l7.evals);
-    let total = total.merge(l1).merge(l2).merge(l3).merge(l4).merge(l5).merge(l7);
+    let l8 = run_fault_hists(&env, &p8);
+    eprintln!("P8 done: {} histories, {} evaluations, {:.1}s", p8.len(), l8.evals, t0.elapsed().as_secs_f64());
+    let (e1, e2, e3, e4, e5, e7, e8) = (l1.evals, l2.evals, l3.evals, l4.evals, l5.evals, l7.evals, l8.evals);
+    let total = total.merge(l1).merge(l2).merge(l3).merge(l4).merge(l5).merge(l7).merge(l8);
     let counters = &total.counts;
     let sum = |p: &str| -> u64 { counters.iter().filter(|(k, _)| k.contains(p)).map(|(_, v)| *v).sum() };
+    let sum2 = |p: &str, q: &str| -> u64 { counters.iter().filter(|(k, _)| k.starts_with(p) && k.ends_with(q)).map(|(_, v)| *v).sum() };
     ctx.finish(
         json!({
             "evaluations": total.evals,
@@ -3164,7 +3776,17 @@ fn main() {
                 "P6_key_representation_evaluations": e6,
                 "P6_key_form_algorithms": form_keys.iter().map(|k| k.alg).collect::<Vec<_>>(),
                 "P7_sorted_records_route_cases": p7.len(), "P7_evaluations": e7,
+                "P8_fault_histories": p8.len(), "P8_evaluations(calls + RRSIGs judged)": e8,
+                "P8_alphabet_A_symbols": alpha_a.len(), "P8_alphabet_B_symbols": alpha_b.len(),
+                "P8_blocks": p8_bound,
             },
+            "P8_calls_failed_by_injection(returned Err, no RRSIG)": sum("fh:failed-call-returned-Err:"),
+            "P8_calls_refused_for_a_reversed_period(returned Err)": sum("fh:refused-call"),
+            "P8_calls_ok": sum("fh:ok-call:"),
+            "P8_rrsigs_verified": sum("fh:verified:"),
+            "P8_rrsigs_verified_after_a_failed_call": sum2("fh:verified:", "|after-failed-call"),
+            "P8_rrsigs_verified_in_retries": sum2("fh:verified:", "|retry-of-failed-call"),
+            "P8_rrsigs_verified_with_caller_dirtied_scratch": sum2("fh:verified:", "|caller-left-octets-in-scratch"),
             "signed": sum("signer:signed:"),
             "verified_after_legit_transform": sum("verify:ok-after-legit-transform"),
             "faults_same_octets_must_verify": sum(":same-octets,verifies"),
@@ -3183,6 +3805,7 @@ fn main() {
             "P6 (both tiers, algorithms 8 10 13 14 15): private key text -> SecretKeyBytes -> text (own field reader compares the key material), four text variants (written-back, no final newline, v1.3 with timing fields, blank lines) each imported with KeyPair::from_bytes and used to sign A/MX/TXT RRsets at z and *.a.z, every RRSIG judged under the key FILE's public key; sign_raw over 4 message lengths verified with ring and with crypto::common::PublicKey; every secret key x every public key of the 8 key files and every single-bit flip of its own DNSKEY RDATA through from_bytes (a foreign or altered public key must be refused); key_size, flag predicates, supported_digest vs digest(); generate() for all 6 parameter sets x flags {256,257}: a generated key goes through the text form, from_bytes and signs the same RRsets verifiably (a refusal to generate is accepted)",
             "P7 (algorithm 15, owners z and *.a.z, all sequences): SortedRecords built by new+insert, default+extend, extend one by one, collect, from+remove_all+extend, from+remove_first*+insert, from(stand-in)+update_data; bookkeeping methods (len, is_empty, deref, find_soa, find_apex_rtype, remove_* results) compared with the contents; each result signed and judged like entry 2; the validator side additionally runs once with Vec<u8> as octets type (Dnskey::convert, OctetsFrom for records and RRSIG)",
             "P5 mode 5 also runs with out-of-zone records before (a.y) and after (zz) the zone and (two-RRset zone) with RecordsIter::new_from_refs as input; any RRSIG covering none of the zone's RRsets is a violation",
+            "P8: RRset [v2,v0] of the type and o.z TXT, owners z and *.a.z, two keys (13 and 15; thorough also the pairs of slow algorithms in short histories); the injected fault is the SignRaw error only (no panic, no wrong-length signature); a call with a reversed validity period may be refused or sign; which SigningError variant reports a sign_raw failure is counted, not judged; in-place sign_zone runs with DenialConfig::AlreadyPresent (no NSEC generation) and must leave the collection unchanged when it fails; retries run after the history (an immediate retry is the history 'X fails, X'); quick runs alphabet A on types A and MX with scratch variants {0,2,5,6} and alphabet B to length 2 at owner z; thorough runs A to length 3 and B to length 2 on every type, A at length 4 and B at length 3 on A, MX, NSEC",
             "NSEC: RFC 4034 6.2 (lower-case next name) and RFC 6840 5.1 (keep case) are both accepted",
             "a record TTL above the original TTL is not a covered-field alteration; such flips are expected to verify like any other TTL change",
         ],
